@@ -80,7 +80,9 @@ func genC09(t *rapid.T) C09Case {
 			WSFile{Path: "dupb.lua", Text: "function DupFn(a, b) return a, b end\nDupVar = \"s\"\n"},
 			WSFile{Path: "dupuse.lua", Text: "DupFn(1, 2)\nprint(DupVar)\n"})
 	}
-	if !dupGate && rapid.Bool().Draw(t, "dupBase") {
+	if rapid.Bool().Draw(t, "dupBase") {
+		// two files with the same base name required by a bare name: equally scored candidates (the
+		// choice among them was order dependent until fix ccb4125)
 		c.WS.Files = append(c.WS.Files, WSFile{Path: "da/same.lua", Text: "return { a = 1 }\n"}, WSFile{Path: "db/same.lua", Text: "return { b = 2 }\n"},
 			WSFile{Path: "usesame.lua", Text: "local s = require(\"same\")\nprint(s.a, s.b)\n"})
 	}
